@@ -20,3 +20,7 @@ open PedVerif.Checker
 #print axioms cfg_origin_map
 #print axioms cfg_origin_tuple
 #print axioms cfg_origin_type
+open PedVerif.Call PedVerif.TypeSafe
+#print axioms pedantic_accepts_only_conforming
+#print axioms pedantic_returns_only_conforming
+#print axioms dataclass_accepts_only_conforming
